@@ -499,7 +499,18 @@ def rule_recording(ck, rid="C02.R7"):
             and not isinstance(sl.elts[1], ast.Slice) and is_lin(fl, sl.elts[1], n, {"self._iteration": 1})
         ck.require(ok, rid, f, t, ok="column = exactly the current period, all stations", bad="rates must be stored at charging_rates[:, self._iteration] (offset 0)",
                    sink="record-column")
-        v = canon(fl.expand(n.stmt.value, n))
+        vx = fl.expand(n.stmt.value, n)
+        changed_ = True
+        while changed_:          # copies and transposes of a vector hold the same numbers in the same order
+            changed_ = False
+            if isinstance(vx, ast.Attribute) and vx.attr == "T":
+                vx, changed_ = vx.value, True
+            elif isinstance(vx, ast.Call) and call_name(vx) in ("array", "asarray", "copy", "deepcopy", "ravel", "flatten", "transpose", "squeeze", "asanyarray") \
+                    and not vx.keywords and ((len(vx.args) == 1 and isinstance(vx.func, ast.Attribute) and dotted(vx.func.value) in ("np", "numpy", "copy"))
+                                             or (len(vx.args) == 1 and isinstance(vx.func, ast.Name))
+                                             or (not vx.args and isinstance(vx.func, ast.Attribute))):
+                vx, changed_ = (vx.args[0] if vx.args else vx.func.value), True
+        v = canon(vx)
         ck.require(v in (VEC, VEC + ".T"), rid, f, n.stmt, ok="what is stored is the network's rate vector", bad=f"the stored vector must be network.current_charging_rates; got {v}",
                    sink="record-vector")
     ck.require(fl.cfg.exit not in fl.cfg.reach(fl.cfg.entry, avoid={n for n, _ in stores}), rid, f, "record on every path", ok="recorded on both the fits and the grow branch",
